@@ -26,8 +26,14 @@ var leadingComments = []string{"<!-- a comment -->\n", "\n\n  \n", "<!-- c1 --><
 	// punctuation a scanner could mistake for markup: unpaired quotes, angle brackets, ampersands
 	"<!-- generated file, don't edit -->\n", "<!-- 15\" banner -->\n", "<!-- a & b < c > d -->\n", "<!-- it's \"x\" & <mj-text> -->\n"}
 
+// what may stand in front of the root element without being part of the document: a byte-order mark, an XML declaration, a
+// doctype, comments, blank lines — and their combinations
+var prologs = []string{"\ufeff", "\ufeff\n", "\ufeff<!-- c -->\n", "<?xml version=\"1.0\" encoding=\"UTF-8\"?>\n", "\ufeff<?xml version=\"1.0\"?>\n",
+	"<!DOCTYPE mjml>\n", "<?xml version=\"1.0\"?>\n<!DOCTYPE mjml>\n<!-- c -->\n", "\ufeff\r\n\r\n", "<?xml version='1.0' standalone='yes'?>"}
+
 func rewrites() []rewrite {
 	return []rewrite{
+		{"prolog", func(r *Rng) PrintOpts { return PrintOpts{} }, func(r *Rng) string { return r.Pick(prologs) }},
 		{"indent-lf", func(r *Rng) PrintOpts { return PrintOpts{Indent: true, Newline: "\n"} }, nil},
 		{"indent-crlf", func(r *Rng) PrintOpts { return PrintOpts{Indent: true, Newline: "\r\n"} }, nil},
 		{"attr-order", func(r *Rng) PrintOpts {
@@ -59,7 +65,7 @@ func renderSeq(src string, opts ...mjml.RenderOption) (string, string) {
 }
 
 func runC12(res *Result, tier string, seed int64, replay string) {
-	res.Rule = "metamorphic pairs: documents = seeded grammar documents (whole component grammar, heads with attributes / classes / fonts / styles) + every fixture for the debug rewrite; rewrites of the SOURCE: indentation + LF, indentation + CRLF (between structural elements only), attribute order within every tag, single quotes, self-closing empty elements, comments / blank lines before the root, and random combinations; outputs must be equal up to whitespace between tags (ids α-renamed), errors identical; rewrite of the OPTIONS: WithDebugTags output minus data-mj-debug-* attributes must equal the normal output byte for byte. HTMLTag correspondence: seeded operation lists on the real html.HTMLTag vs the Lean byte-exact model (driver `tag`). Non-trivial = document with ≥3 elements carrying ≥2 attributes; distinct by (document, rewrite)"
+	res.Rule = "metamorphic pairs: documents = seeded grammar documents (whole component grammar, heads with attributes / classes / fonts / styles) + every fixture for the debug rewrite; rewrites of the SOURCE: indentation + LF, indentation + CRLF (between structural elements only), attribute order within every tag, single quotes, self-closing empty elements, comments / blank lines / a byte-order mark / an XML declaration / a doctype before the root (all of them, exhaustively, on documents whose content is cut out of the source by position: mj-raw in head and body, mj-text, mj-table, mj-button, mj-style), and random combinations; outputs must be equal up to whitespace between tags (ids α-renamed), errors identical; rewrite of the OPTIONS: WithDebugTags output minus data-mj-debug-* attributes must equal the normal output byte for byte. HTMLTag correspondence: seeded operation lists on the real html.HTMLTag vs the Lean byte-exact model (driver `tag`). Non-trivial = document with ≥3 elements carrying ≥2 attributes; distinct by (document, rewrite)"
 	n := 250
 	if tier == "thorough" {
 		n = 8000
@@ -86,6 +92,17 @@ func runC12(res *Result, tier string, seed int64, replay string) {
 		col := &Node{Tag: "mj-column", Kids: leaves}
 		nd := &Node{Tag: "mjml", Kids: []*Node{{Tag: "mj-body", Kids: []*Node{{Tag: "mj-section", Kids: []*Node{col}}}}}}
 		docs = append(docs, doc{fmt.Sprintf("entities:%d", i), nd, nd.MJML()})
+	}
+	// content the parser cuts out of the source text by position (mj-raw in head and body, mj-text, mj-table, mj-button, mj-style):
+	// anything in front of the root shifts those positions
+	{
+		nd := &Node{Tag: "mjml", Kids: []*Node{
+			{Tag: "mj-head", Kids: []*Node{{Tag: "mj-raw", Text: `<meta name="x" content="y">`}, {Tag: "mj-style", Text: ".a { color: red; }"}, {Tag: "mj-title", Text: "Ti"}}},
+			{Tag: "mj-body", Kids: []*Node{{Tag: "mj-raw", Text: `<div class="tracking">x</div>`}, {Tag: "mj-section", Kids: []*Node{{Tag: "mj-column", Kids: []*Node{
+				{Tag: "mj-raw", Text: "<p>in column</p>"}, {Tag: "mj-text", Text: "<b>bold</b> text"}, {Tag: "mj-table", Text: "<tr><td>c</td></tr>"},
+				(&Node{Tag: "mj-button", Text: "<i>go</i>"}).Set("href", "u")}}}}}},
+		}}
+		docs = append(docs, doc{"entities:positional", nd, nd.MJML()})
 	}
 	rws := rewrites()
 	// sequential: documents carry different heads (see C07)
@@ -119,7 +136,7 @@ func runC12(res *Result, tier string, seed int64, replay string) {
 		}
 		// the entity documents get every leading comment, not a sampled one
 		if strings.HasPrefix(d.name, "entities:") {
-			for ci, pre := range leadingComments {
+			for ci, pre := range append(append([]string{}, leadingComments...), prologs...) {
 				got, gerr := renderSeq(pre + d.src)
 				res.Case(d.src+"|leading-comment-all|"+fmt.Sprint(ci), true)
 				res.Count("rewrite=leading-comment(exhaustive)")
